@@ -144,8 +144,14 @@ def job_inverse(job):
         N = 2 ** alg.d
         one = {0: F(1)}
         for it in range(cfg.get('random', 10)):
-            mode = rng.choice(['sparse', 'grade', 'perm', 'full', 'sparse'])
-            ak = rand_keys(rng, alg, mode) or (0,)
+            mode = rng.choice(['sparse', 'grade', 'perm', 'full', 'sparse', 'mixed3', 'mixed3'])
+            if mode == 'mixed3':
+                # a few blades of mixed grade parity (closed-form inverses have grade-specific correction terms)
+                ev = [k for k in range(N) if bin(k).count('1') % 2 == 0]
+                od = [k for k in range(N) if bin(k).count('1') % 2 == 1]
+                ak = tuple(rng.sample(ev, min(len(ev), rng.randint(1, 2))) + rng.sample(od, min(len(od), rng.randint(1, 2))))
+            else:
+                ak = rand_keys(rng, alg, mode) or (0,)
             if cfg.get('pad') and rng.random() < 0.3:
                 extra = [k for k in rng.sample(range(N), min(N, 2)) if k not in ak]
                 ak = tuple(ak) + tuple(extra)
